@@ -52,6 +52,13 @@ Theorem C19_weighted_mean_scale : forall (pts : list V) (w : list R) (s : R), s 
 Proof. exact mean3_weighted_scale. Qed.
 Print Assumptions C19_weighted_mean_scale.
 
+(* the decomposition's whole input - centre and centred weighted vectors - is unchanged by uniformly scaling the weights *)
+Theorem C19_weights_scale : forall (pts : list V) (w : list R) (s : R), s <> 0 ->
+  snd (@wsum3 RNum pts w) <> 0 -> @mean_weight RNum w <> 0 ->
+  @centred3 RNum pts (Some (map (fun x => Rmult x s) w)) = @centred3 RNum pts (Some w).
+Proof. exact centred3_weights_scale. Qed.
+Print Assumptions C19_weights_scale.
+
 Theorem C19_to_from_basis : forall (b0 b1 b2 c q : V), orthonormal3 b0 b1 b2 ->
   @to_basis3 RNum (b0, b1, b2) c (@from_basis3 RNum (b0, b1, b2) c q) = q /\
   @from_basis3 RNum (b0, b1, b2) c (@to_basis3 RNum (b0, b1, b2) c q) = q.
